@@ -145,6 +145,7 @@ func TestC01Accessors(t *testing.T) { drv.C01Accessors(t) }
 func TestC04(t *testing.T)          { drv.C04(t) }
 func TestC04Encode(t *testing.T)    { drv.C04Encode(t) }
 func TestC05(t *testing.T)          { drv.C05(t) }
+func TestC05Big(t *testing.T)       { drv.C05Big(t) }
 func TestC14(t *testing.T)          { drv.C14(t) }
 func TestC15(t *testing.T)          { drv.C15(t) }
 func TestC19Helpers(t *testing.T)   { drv.C19Helpers(t) }
